@@ -40,14 +40,20 @@ struct seq_fn
     T operator()(hep::mc_point<T> const&) const { return (*value)((*counter)++); }
     T operator()(hep::mc_point<T> const&, hep::projector<T>& proj) const
     {
-        T const v = (*value)((*counter)++);
-        proj.add(0, T(0.5), v);
+        sz const k = (*counter)++;
+        T const v = (*value)(k);
+        proj.add(0, T(0.75), v);     // second of two bins
+        // two more distributions with several bins: call k goes to bin k % 3 resp. k % 2, so that every bin
+        // accumulates its own subsequence next to its neighbours (separate compensation per bin)
+        proj.add(1, (T(k % 3) + T(0.5)) / T(3), v);
+        proj.add(2, (T(k % 2) + T(0.5)) / T(2), T(0.5), v);
         return v;
     }
 };
 
+// bin sums of the two multi-bin distributions: 3 + 2 values
 template <typename T>
-struct sums { T plain, with_dist, bin; sz calls_seen; };
+struct sums { T plain, with_dist, bin; sz calls_seen; T more[5]; };
 
 template <typename T>
 static sums<T> run(std::function<T(sz)> const& value, sz n)
@@ -60,10 +66,42 @@ static sums<T> run(std::function<T(sz)> const& value, sz n)
     s.calls_seen = counter;
     counter = 0;
     auto const r2 = hep::plain_iteration(hep::make_integrand<T>(seq_fn<T>{&value, &counter}, 1,
-        hep::make_dist_params<T>(1, T(0), T(1), "bin")), n, g2);
+        hep::make_dist_params<T>(2, T(0), T(1), "bin"), hep::make_dist_params<T>(3, T(0), T(1), "three"),
+        hep::distribution_parameters<T>(2, 1, T(0), T(1), T(0), T(1), "two")), n, g2);
     s.with_dist = r2.sum();
-    s.bin = r2.distributions().at(0).results().at(0).sum();
+    // the first distribution has two bins of width 1/2; everything goes to the second one (the division by 2 is exact)
+    s.bin = r2.distributions().at(0).results().at(1).sum() / T(2);
+    // bin widths 1/3 and 1/2: the reported sums are divided by the bin area, undo it exactly where possible
+    for (sz b = 0; b != 3; ++b) s.more[b] = r2.distributions().at(1).results().at(b).sum();
+    for (sz b = 0; b != 2; ++b) s.more[3 + b] = r2.distributions().at(2).results().at(b).sum();
     return s;
+}
+
+// bins of the multi-bin distributions: value = (sum over the bin's subsequence) / area with area 1/3 resp. 1/2.
+// The division by the area is one more rounding, so the bound is 3 eps instead of 2.
+template <typename T>
+static void judge_more(report& r, sums<T> const& s, std::function<T(sz)> const& value, sz n, std::string const& id, std::string const& desc)
+{
+    __float128 ex[5] = {0, 0, 0, 0, 0}, mg[5] = {0, 0, 0, 0, 0};
+    for (sz k = 0; k != n; ++k)
+    {
+        __float128 const v = value(k);
+        ex[k % 3] += v; mg[k % 3] += v < 0 ? -v : v;
+        ex[3 + k % 2] += v; mg[3 + k % 2] += v < 0 ? -v : v;
+    }
+    for (sz b = 0; b != 5; ++b)
+    {
+        __float128 const scale = b < 3 ? 3 : 2;
+        __float128 d = static_cast<__float128>(s.more[b]) - ex[b] * scale;
+        if (d < 0) d = -d;
+        if (!(d <= 3 * static_cast<__float128>(std::numeric_limits<T>::epsilon()) * mg[b] * scale))
+        {
+            r.violate("accuracy-lost/bin-of-multi-bin-distribution", id, std::string(vf::type_name<T>()) + " " + desc + ": bin " + std::to_string(b < 3 ? b : b - 3) + " of distribution "
+                + (b < 3 ? "1" : "2") + " reports " + vf::dec(static_cast<long double>(s.more[b])) + ", exact " + vf::dec(static_cast<long double>(ex[b] * scale)) + ", error "
+                + vf::dec(static_cast<long double>(d / (static_cast<__float128>(std::numeric_limits<T>::epsilon()) * mg[b] * scale))) + " eps*sum|v| (bound 3)");
+            return;
+        }
+    }
 }
 
 template <typename T>
@@ -74,6 +112,7 @@ static void judge_exact(report& r, sums<T> const& s, i128 exact, i128 mag, std::
     struct { char const* what; T v; } const outs[] = {{"integral", s.plain}, {"integral-with-distributions", s.with_dist}, {"bin", s.bin}};
     for (auto const& o : outs)
     {
+        if (!std::isfinite(o.v)) { r.violate(std::string("accuracy-lost/") + o.what, id, std::string(vf::type_name<T>()) + " " + desc + ": " + o.what + " sum is not finite"); continue; }
         i128 const got = fx<T>::to_fixed(o.v);
         i128 const diff = got > exact ? got - exact : exact - got;
         if (diff > bound)
@@ -111,6 +150,7 @@ static void part_a(report& r, sz max_len)
                 if (s.calls_seen != len) r.violate("wrong-number-of-calls", id.empty() ? tn + " seq " + vf::join(idx) : id, "integrand called " + std::to_string(s.calls_seen) + " times for " + std::to_string(len));
                 if (id.empty() && (fx<T>::to_fixed(s.plain) != exact || r.violation_count())) id = tn + " seq " + vf::join(idx);
                 judge_exact<T>(r, s, exact, mag, id.empty() ? tn + " seq " + vf::join(idx) : id, "sequence of alphabet indices " + vf::join(idx));
+                judge_more<T>(r, s, value, len, id.empty() ? tn + " seq " + vf::join(idx) : id, "sequence of alphabet indices " + vf::join(idx));
                 if (fx<T>::to_fixed(naive) != exact)
                 {
                     // non-trivial: naive left-to-right summation in T is not exact for this sequence
@@ -154,6 +194,7 @@ static void part_b(report& r, bool thorough)
                     r.eval();
                     r.count("values_summed", 2 * (plen + k));
                     judge_exact<T>(r, s, exact, mag, id, "prefix " + vf::join(idx) + " then " + std::to_string(k) + " x alphabet[" + std::to_string(a) + "]");
+                    judge_more<T>(r, s, value, plen + k, id, "prefix " + vf::join(idx) + " then " + std::to_string(k) + " x alphabet[" + std::to_string(a) + "]");
                     r.distinct(vf::hash_str(id));
                 }
             }
@@ -180,6 +221,7 @@ static void part_c(report& r, bool thorough)
         {"geometric-1/2", [=](sz i) { return std::ldexp(T(1), -int(i % 200)); }},
         {"geometric-1/3", [=](sz i) { return std::pow(third, T(i % 60)); }},
         {"geometric-0.99", [=](sz i) { return std::pow(T(0.99L), T(i % 3000)); }},
+        {"large-and-small-bins", [=](sz i) { return i % 3 == 0 ? std::ldexp(T(1) + T(i % 5) * eps, 30) : T(1) + T(i % 11) * eps; }},
         {"mixed-magnitudes", [=](sz i) { return std::ldexp(T(1) + T(vf::splitmix64(i) % 1024) * eps, int(vf::splitmix64(i + 77) % 40) - 20) * ((vf::splitmix64(i + 5) & 1) ? T(1) : T(-1)); }},
     };
     for (auto const& f : fams)
@@ -198,11 +240,12 @@ static void part_c(report& r, bool thorough)
             {
                 __float128 d = static_cast<__float128>(o.v) - exact;
                 if (d < 0) d = -d;
-                if (d > 2 * static_cast<__float128>(eps) * mag)
+                if (!(d <= 2 * static_cast<__float128>(eps) * mag))
                     r.violate(std::string("accuracy-lost/") + o.what, id, id + ": " + o.what + " sum " + vf::dec(static_cast<long double>(o.v))
                         + ", exact " + vf::dec(static_cast<long double>(exact)) + ", error "
                         + vf::dec(static_cast<long double>(d / (static_cast<__float128>(eps) * mag))) + " eps*sum|v| (bound 2)");
             }
+            judge_more<T>(r, s, f.value, n, id, id);
             r.distinct(vf::hash_str(id));
             if (r.deadline_hit()) return;
         }
